@@ -267,6 +267,12 @@ def birthday(ctx, n=1 << 18):
         return
     seen, pairs = {}, []
     try:
+        # stored pairs: ordinary experiments whose MD5 digests share their first 48 bits (found once by a 2^24 search; a digest cut to 12 hex digits / 6 bytes confuses them)
+        T = 'def e { salt: "%s" splitters: uid return "a" weighted 1, "b" weighted 1, "c" weighted 1, "d" weighted 1 }'
+        for a, b in [(T % "82c0c866e1a4", T % "0e6ad6cd9f67")]:
+            if digest(a) == digest(b):
+                pairs.append((a, b))
+                ctx.count("birthday:stored-pair-collides")
         for k in range(n):
             t = 'def bd { salt: "rollout-%d" splitters: u return "a" weighted %d, "b" weighted %d }' % (k, 1 + k % 97, 1 + (k * 7) % 89)
             d = digest(t)
@@ -289,12 +295,13 @@ def birthday(ctx, n=1 << 18):
         except Exception:  # noqa
             continue
         fresh, _ = common.quiet(lambda: ExperimentEvaluator(t2))
-        bad = [u for u in units if ev(u=u) != fresh(u=u)]
+        field = "uid" if "splitters: uid" in t1 else "u"
+        bad = [u for u in units if ev(**{field: u}) != fresh(**{field: u})]
         if bad:
             ctx.violation(f"two ordinary experiments with the same change-detection digest: after new(T1); recompile(T2) the evaluator still answers as T1 "
                           f"({len(bad)} of {len(units)} units differ from an evaluator built from T2): T1 = {t1[:70]!r}…, T2 = {t2[:70]!r}…",
-                          {"history": [["new", 0, t1], ["recompile", 0, t2], ["call", 0, common.enc_env({"u": bad[0]})]], "kind": "digest-collision",
-                           "env": common.enc_env({"u": bad[0]}), "impl": common.outcome_of(lambda: ev(u=bad[0])), "fresh": common.outcome_of(lambda: fresh(u=bad[0]))})
+                          {"history": [["new", 0, t1], ["recompile", 0, t2], ["call", 0, common.enc_env({field: bad[0]})]], "kind": "digest-collision",
+                           "env": common.enc_env({field: bad[0]}), "impl": common.outcome_of(lambda: ev(**{field: bad[0]})), "fresh": common.outcome_of(lambda: fresh(**{field: bad[0]}))})
             return
 
 
@@ -368,6 +375,10 @@ def run(ctx, focuses, n, with_model=True):
     for (focus, kind, t1, t2, envs), m in zip(plan, models):
         ctx.count("twin:" + focus + ":" + kind.split("+")[0])
         ctx.case(("twin", t1, t2), True)
+        if m is not None and common.model_has_gap(m):
+            # the model has no answer (e.g. a lexer action the translator could not carry over: reported as a broken obligation, not as a behaviour)
+            ctx.count("twin:model-gap")
+            m = None
         _volatile(ctx, focus, kind, t1, t2, envs)
         if ctx.violations and ctx.violations[-1]["replay"].get("note"):
             continue
